@@ -1,7 +1,7 @@
 ------------------------------ MODULE DBFTSim ------------------------------
 (* Schedule generator: behaviours of DBFT (timer firings, deliveries in any order, changing silent sets)
    printed as JSON at the depth bound. *)
-EXTENDS DBFT, Sequences, Json
+EXTENDS MCDBFT, Sequences, Json
 
 CONSTANT Depth
 VARIABLE hist
